@@ -17,6 +17,9 @@ var (
 	vmDSReads    = 0
 	vmDSChunked  = false
 	vmDSStrict   = false
+
+	vmDSFailAppend = -1 // index of the append request answered with 503
+	vmDSAppends    = 0
 )
 
 var vdsIssued = regexp.MustCompile(`^([0-9]{10}|-1|)$`)
@@ -30,6 +33,14 @@ func vdsServer(name string) string {
 		if vmDSStrict && !vdsIssued.MatchString(r.URL.Query().Get("offset")) {
 			http.Error(w, "invalid offset", http.StatusBadRequest)
 			return
+		}
+		if r.Method == http.MethodPost {
+			i := vmDSAppends
+			vmDSAppends++
+			if i == vmDSFailAppend {
+				http.Error(w, "service unavailable", http.StatusServiceUnavailable)
+				return
+			}
 		}
 		handler.ServeHTTP(w, r)
 	})))
